@@ -185,6 +185,11 @@ pub fn menu(prop: &str, tier: &str, depth: usize, e: &Exec) -> Vec<Op> {
                 }
                 out.push(Op::ImportAfter { rank: 0, topic: "ab".into(), ctx: ctxs.last().unwrap().clone(), ttl: "".into() });
                 out.push(Op::ImportDup { rank: n - 1 });
+                // a frame from a machine whose clock runs ahead (once per history)
+                let ahead = scru128::new().timestamp() + 60_000;
+                if !e.live.keys().any(|i| i.timestamp() > ahead) {
+                    out.push(Op::ImportFuture { topic: "a".into(), ctx: ctxs.last().unwrap().clone(), ttl: "".into() });
+                }
                 if n <= 2 || thorough {
                     out.push(Op::ImportOver { rank: n - 1, topic: "ab".into(), ctx: ctxs.last().unwrap().clone(), ttl: "".into() });
                 }
@@ -232,6 +237,7 @@ pub fn menu(prop: &str, tier: &str, depth: usize, e: &Exec) -> Vec<Op> {
             }
             // a different frame imported under a stored id: other topic, other context
             if n > 0 {
+                out.push(Op::ImportNulOver { rank: n - 1 });
                 out.push(Op::ImportOver { rank: n - 1, topic: "ab".into(), ctx: Ctx::Zero, ttl: "".into() });
                 out.push(Op::ImportOver { rank: 0, topic: "a".into(), ctx: ctxs.last().unwrap().clone(), ttl: "".into() });
             }
